@@ -137,19 +137,19 @@ class World:
     def enum_content(self, e: str) -> Any:
         d = self.m[e]
         return (d["name"], d["schema"], d["comment"],
-                tuple((i["name"], i["note"], i["comment"]) for i in d["items"]))
+                tuple((i["name"], i["note"], i["comment"]) for i in d["items"]), bool(d.get("subclass")))
 
     def table_content(self, t: str) -> Any:
         d = self.m[t]
         return (d["name"], d["schema"], d["alias"] or None, tuple(self.col_content(c) for c in d["cols"]),
                 tuple(self.idx_content(i) for i in d["idxs"]), d["note"], d["header_color"], d["comment"],
-                d["abstract"], tuple(d["properties"].items()))
+                d["abstract"], tuple(d["properties"].items()), bool(d.get("subclass")))
 
     def ref_strict(self, r: str) -> Any:
         d = self.m[r]
         return (d["type"], tuple(self.col_content(c) for c in d["col1"]),
                 tuple(self.col_content(c) for c in d["col2"]), d["name"], d["comment"],
-                d["on_update"], d["on_delete"])
+                d["on_update"], d["on_delete"], bool(d.get("subclass")))
 
     def ref_nominal(self, r: str) -> Any:
         d = self.m[r]
@@ -189,7 +189,25 @@ def realize(world: World, classes: Any, renderers: Dict[str, Any], via_add: bool
     """Build real objects for every handle through the public constructors.
     Database membership is established with db.add() in model list order.
     `classes` is the pydbml.classes module (+ Database)."""
-    C = classes
+    C0 = classes
+
+    class _Sub:
+        """model field `subclass: true` -> the object is built as an instance of a trivial user-defined
+        subclass of the library class (is-a Table, is-a Enum, ...)"""
+        cache: Dict[str, Any] = {}
+
+        def __init__(self, sub: bool) -> None:
+            self.sub = sub
+
+        def __getattr__(self, name: str) -> Any:
+            base = getattr(C0, name)
+            if not self.sub:
+                return base
+            if name not in _Sub.cache:
+                _Sub.cache[name] = type("My" + name, (base,), {})
+            return _Sub.cache[name]
+    C = _Sub(False)
+    CS = _Sub(True)
     real: Dict[str, Any] = dict(pre or {})
     pre = pre or {}
     m = world.m
@@ -198,7 +216,7 @@ def realize(world: World, classes: Any, renderers: Dict[str, Any], via_add: bool
             continue
         d = m[h]
         items = [C.EnumItem(i["name"], note=i["note"] or None, comment=i["comment"]) for i in d["items"]]
-        real[h] = C.Enum(d["name"], items, schema=d["schema"], comment=d["comment"])
+        real[h] = (CS if d.get("subclass") else C).Enum(d["name"], items, schema=d["schema"], comment=d["comment"])
     for h in world.handles("column"):
         if h in pre:
             continue
@@ -235,11 +253,12 @@ def realize(world: World, classes: Any, renderers: Dict[str, Any], via_add: bool
         d = m[h]
         kw = dict(schema=d["schema"], alias=d["alias"], note=d["note"] or None, header_color=d["header_color"],
                   comment=d["comment"], abstract=d["abstract"], properties=dict(d["properties"]) or None)
+        TC = (CS if d.get("subclass") else C).Table
         if d.get("ctor_cols", True):
-            t = C.Table(d["name"], columns=[real[c] for c in d["cols"]],
-                        indexes=[real[i] for i in d["idxs"]], **kw)
+            t = TC(d["name"], columns=[real[c] for c in d["cols"]],
+                   indexes=[real[i] for i in d["idxs"]], **kw)
         else:
-            t = C.Table(d["name"], **kw)
+            t = TC(d["name"], **kw)
             for c in d["cols"]:
                 t.add_column(real[c])
             for i in d["idxs"]:
@@ -251,31 +270,36 @@ def realize(world: World, classes: Any, renderers: Dict[str, Any], via_add: bool
         d = m[h]
         c1 = [real[c] for c in d["col1"]]
         c2 = [real[c] for c in d["col2"]]
-        real[h] = C.Reference(d["type"], c1[0] if len(c1) == 1 else c1, c2[0] if len(c2) == 1 else c2,
+        real[h] = (CS if d.get("subclass") else C).Reference(d["type"], c1[0] if len(c1) == 1 else c1, c2[0] if len(c2) == 1 else c2,
                               name=d["name"], comment=d["comment"], on_update=d["on_update"],
                               on_delete=d["on_delete"], inline=d["inline"])
     for h in world.handles("group"):
         if h in pre:
             continue
         d = m[h]
-        real[h] = C.TableGroup(d["name"], [real[t] for t in d["items"]], comment=d["comment"],
+        real[h] = (CS if d.get("subclass") else C).TableGroup(d["name"], [real[t] for t in d["items"]], comment=d["comment"],
                                note=None if d["note"] is None else C.Note(d["note"]), color=d["color"])
     for h in world.handles("sticky"):
         if h in pre:
             continue
         d = m[h]
-        real[h] = C.StickyNote(d["name"], d["text"])
+        real[h] = (CS if d.get("subclass") else C).StickyNote(d["name"], d["text"])
     for h in world.handles("project"):
         if h in pre:
             continue
         d = m[h]
-        real[h] = C.Project(d["name"], items=dict(d["items"]) or None, note=d["note"] or None, comment=d["comment"])
+        real[h] = (CS if d.get("subclass") else C).Project(d["name"], items=dict(d["items"]) or None, note=d["note"] or None,
+                                                           comment=d["comment"])
     for h in world.handles("db"):
         if h in pre:
             continue
         d = m[h]
-        db = C.Database(sql_renderer=renderers["sql"][d["sqlr"]], dbml_renderer=renderers["dbml"][d["dbmlr"]],
-                        allow_properties=d["allow_properties"])
+        if d.get("positional"):
+            # renderer classes passed positionally, in the documented order (sql_renderer, dbml_renderer, allow_properties)
+            db = C.Database(renderers["sql"][d["sqlr"]], renderers["dbml"][d["dbmlr"]], d["allow_properties"])
+        else:
+            db = C.Database(sql_renderer=renderers["sql"][d["sqlr"]], dbml_renderer=renderers["dbml"][d["dbmlr"]],
+                            allow_properties=d["allow_properties"])
         real[h] = db
         if via_add:
             for x in d["enums"]:
